@@ -126,7 +126,8 @@ def st_case(draw):
     fshape = ([co, ci] if mc else []) + n
     return {"mode": mode, "m": m, "n": n, "strides": strides, "mc": mc, "ci": ci, "co": co, "batch": batch,
             "dtype": dtype, "as_tuple": draw(st.booleans()), "seed": draw(A.seeds),
-            "d": draw(_values(dshape, dtype)), "f": draw(_values(fshape, dtype))}
+            "d": draw(_values(dshape, dtype)), "f": draw(_values(fshape, dtype)),
+            "dlayout": draw(st.sampled_from(A.LAYOUTS)), "flayout": draw(st.sampled_from(A.LAYOUTS))}
 
 
 # ------------------------------------------------------------------ oracle
@@ -324,7 +325,11 @@ def check_case(case):
     cast = tuple if case["as_tuple"] else list
     dshape = batch + ((ci,) if mc else ()) + m
     fshape = ((co, ci) if mc else ()) + n
-    d, f = _vals(case["d"]), _vals(case["f"])
+    # the caller's data / filter arrays in the generated memory layouts (same values)
+    d = A.relayout(_vals(case["d"]), case.get("dlayout", "c"))
+    f = A.relayout(_vals(case["f"]), case.get("flayout", "c"))
+    if case.get("dlayout", "c") != "c" or case.get("flayout", "c") != "c":
+        r.label("layout:data=%s,filt=%s" % (case.get("dlayout", "c"), case.get("flayout", "c")))
     assert d.shape == dshape and f.shape == fshape and d.dtype == dt and f.dtype == dt
     kw = {"mode": mode, "strides": None if strides is None else cast(strides), "multi_channel": mc}
 
